@@ -3,6 +3,7 @@ import SpecterModel.C02.Drv
 import SpecterModel.C03.Drv
 import SpecterModel.C05.Drv
 import SpecterModel.C06.Drv
+import SpecterModel.C07.Drv
 import SpecterModel.C08.Drv
 import SpecterModel.C09.Drv
 import SpecterModel.C10.Drv
@@ -55,6 +56,7 @@ def main (args : List String) : IO UInt32 := do
   | ["C03"] => do Specter.C03.main; return 0
   | ["C05"] => do Specter.C05.main; return 0
   | ["C06"] => do Specter.C06.main; return 0
+  | ["C07"] => do Specter.C07.main; return 0
   | ["C08"] => do Specter.C08.main; return 0
   | ["C09"] => do Specter.C09.main; return 0
   | ["C10"] => do Specter.C10.main; return 0
